@@ -85,6 +85,7 @@ def analyse(program):
     rules_struct.iter4(P, sv)
     rules_struct.cg1(P, sv)
     rules_struct.eff4(P, sv)
+    rules_struct.key1(P, sv)
     for v in sv.violations.values():
         v = dict(v)
         v["config"] = P.config
